@@ -207,30 +207,6 @@ impl Expression {
     pub fn var_user_defined(name: &str, type_name: &str) -> Self {
         Self::Variable(name.into(), ExpressionType::UserDefined(type_name.into()))
     }
-
-    fn flip_multiply_plus(l_op: &Operator, r_op: &Operator) -> bool {
-        (l_op.is_multiply_or_divide() || *l_op == Operator::Modulo) && r_op.is_plus_or_minus()
-    }
-
-    fn flip_plus_minus(l_op: &Operator, r_op: &Operator) -> bool {
-        //
-        //  A + B - C is parsed as
-        //
-        //      +
-        //   A     -
-        //        B C
-        //
-        // needs to flip into
-        //
-        //      -
-        //   +    C
-        //  A B
-        l_op.is_plus_or_minus() && r_op.is_plus_or_minus()
-    }
-
-    fn flip_multiply_divide(l_op: &Operator, r_op: &Operator) -> bool {
-        l_op.is_multiply_or_divide() && r_op.is_multiply_or_divide()
-    }
 }
 
 // TODO #[deprecated]
@@ -376,14 +352,10 @@ impl ExpressionTrait for Expression {
     fn should_flip_binary(&self) -> bool {
         match self {
             Self::BinaryExpression(l_op, _, l_right, _) => match &l_right.element {
-                Self::BinaryExpression(r_op, _, _, _) => {
-                    l_op.is_arithmetic() && (r_op.is_relational() || r_op.is_binary())
-                        || l_op.is_relational() && r_op.is_binary()
-                        || *l_op == Operator::And && *r_op == Operator::Or
-                        || Self::flip_multiply_plus(l_op, r_op)
-                        || Self::flip_plus_minus(l_op, r_op)
-                        || Self::flip_multiply_divide(l_op, r_op)
-                }
+                // A op1 B op2 C is parsed as A op1 (B op2 C)
+                // and needs to flip into (A op1 B) op2 C
+                // unless op2 binds tighter than op1
+                Self::BinaryExpression(r_op, _, _, _) => l_op.precedence() >= r_op.precedence(),
                 _ => false,
             },
             _ => false,
